@@ -265,7 +265,7 @@ def mutate(root, how):
         # every other public way to change a node: classes, change marks, layout coordinates, rule bookkeeping
         from mathy_core.layout import TreeLayout
         for k, n in enumerate(nodes):
-            for f in (lambda: n.add_class("mark-%d" % k), lambda: n.add_class(["a", "b"]), lambda: n.set_changed(), lambda: setattr(n, "r_index", k + 100),
+            for f in (lambda: n.classes.append("appended-%d" % k), lambda: n.classes.extend(["x", "y"]), lambda: n.add_class("mark-%d" % k), lambda: n.add_class(["a", "b"]), lambda: n.set_changed(), lambda: setattr(n, "r_index", k + 100),
                       lambda: n.clear_classes() if k % 3 == 0 else None, lambda: n.add_class("late")):
                 try:
                     f()
